@@ -62,9 +62,17 @@ def ty_to_json(model, t, depth=3):
 
 
 def node_to_json(model, n, depth=3):
+    try:
+        return _node_to_json(model, n, depth)
+    except Exception as e:     # z3 model evaluation can fail on huge terms
+        return {"id": "?", "op": None, "error": repr(e)[:100]}
+
+
+def _node_to_json(model, n, depth=3):
     """Structure of node term n in the model: op, payload, children."""
+    n = mval(model, n)          # work on model values: evaluating nested terms crashed z3 5.1
     opc = as_int(model, S.op(n))
-    d = {"id": str(mval(model, n))}
+    d = {"id": str(n)}
     if opc is None or not (0 <= opc < S.NOPS):
         d["op"] = None
         d["type"] = ty_to_json(model, S.type_of(n))
